@@ -1,6 +1,8 @@
 /-! `Token.save` / `Token.load` (`streamflow/core/workflow.py`, `streamflow/workflow/token.py`) for the recursive token
     values: a plain `Token` stores its JSON value, a `ListToken` stores the ids of its (separately saved) members, an
-    `ObjectToken` stores `key → id`. Member chains are cons cells so that the type is not nested. Core Lean only. -/
+    `ObjectToken` stores `key → id`, a `JobToken` stores its `Job` (`{"job": {name, workflow_id, inputs: key → id, directories}}`,
+    the input tokens saved first by `Job._save_additional_params`) and its own `recoverable` flag. File tokens
+    (`CWLFileToken`: no `_save_value` / `_load` of their own) are plain tokens whose value is a JSON document. Member chains are cons cells so that the type is not nested. Core Lean only. -/
 namespace SFV.TokenStore
 
 inductive Tok where
@@ -10,12 +12,14 @@ inductive Tok where
   | list (tag : String) (items : Tok)
   /-- `ObjectToken(value={…}, tag)` -/
   | obj (tag : String) (fields : Tok)
+  /-- `JobToken(value=Job(name, workflow_id, inputs={…}, directories), tag, recoverable)`; the scalars of the job are opaque -/
+  | job (tag : String) (jv : Nat) (rec : Bool) (inputs : Tok)
   | nil
   | cons (hd tl : Tok)
   | kcons (key : String) (hd tl : Tok)
 deriving DecidableEq, Repr
 
-inductive Kind where | plain | list | obj
+inductive Kind where | plain | list | obj | job
 deriving DecidableEq, Repr
 
 /-- the `value` column -/
@@ -23,6 +27,7 @@ inductive SVal where
   | json (v : Nat)
   | ids (l : List Nat)
   | kv (l : List (String × Nat))
+  | jobv (jv : Nat) (inputs : List (String × Nat))
 deriving DecidableEq, Repr
 
 structure Row where
@@ -60,6 +65,10 @@ def save : Mode → Tok → DB → DB × List Nat
       let s := save .chain fields db
       let x := s.1.insert ⟨.obj, tag, .kv ((keysOf fields).zip s.2), false⟩
       (x.1, [x.2])
+  | .tok, .job tag jv r inputs, db =>
+      let s := save .chain inputs db
+      let x := s.1.insert ⟨.job, tag, .jobv jv ((keysOf inputs).zip s.2), r⟩
+      (x.1, [x.2])
   | .chain, .cons h t, db =>
       let a := save .tok h db
       let b := save .chain t a.1
@@ -82,6 +91,7 @@ mutual
             | .plain, .json v => some (.plain r.tag v r.rcv)
             | .list, .ids l => (loadIds fuel db l).map (.list r.tag)
             | .obj, .kv l => (loadKv fuel db l).map (.obj r.tag)
+            | .job, .jobv jv l => (loadKv fuel db l).map (.job r.tag jv r.rcv)
             | _, _ => none
   def loadIds : Nat → DB → List Nat → Option Tok
     | 0, _, _ => none
@@ -104,6 +114,7 @@ def recoverable : Tok → Bool
   | .plain _ _ r => r
   | .list _ items => recoverable items
   | .obj _ fields => recoverable fields
+  | .job _ _ r _ => r
   | .nil => true
   | .cons h t => recoverable h && recoverable t
   | .kcons _ h t => recoverable h && recoverable t
@@ -115,6 +126,7 @@ def Wf : WMode → Tok → Prop
   | .tok, .plain _ _ _ => True
   | .tok, .list _ items => Wf .items items
   | .tok, .obj _ fields => Wf .fields fields
+  | .tok, .job _ _ _ inputs => Wf .fields inputs
   | .items, .nil => True
   | .items, .cons h t => Wf .tok h ∧ Wf .items t
   | .fields, .nil => True
